@@ -331,25 +331,26 @@ func (e *handlerStore[T]) off(handler ...T) {
 		return
 	}
 
-	remove := func(slice []T, s int) []T {
-		return append(slice[:s], slice[s+1:]...)
-	}
-
-	for i, h := range e.funcs {
-		for _, _h := range handler {
-			if h == _h {
-				e.funcs = remove(e.funcs, i)
+	// Keep the handlers that are not named. (Don't remove from the slice while ranging over it:
+	// the indexes go stale as soon as an element is removed.)
+	filter := func(slice []T) (kept []T) {
+		for _, h := range slice {
+			named := false
+			for _, _h := range handler {
+				if h == _h {
+					named = true
+					break
+				}
+			}
+			if !named {
+				kept = append(kept, h)
 			}
 		}
+		return
 	}
 
-	for i, h := range e.funcsOnce {
-		for _, _h := range handler {
-			if h == _h {
-				e.funcsOnce = remove(e.funcsOnce, i)
-			}
-		}
-	}
+	e.funcs = filter(e.funcs)
+	e.funcsOnce = filter(e.funcsOnce)
 }
 
 func (e *handlerStore[T]) offAll() {
@@ -416,21 +417,27 @@ func (e *eventHandlerStore) off(eventName string, handler ...reflect.Value) {
 		return
 	}
 
-	remove := func(slice []*eventHandler, s int) []*eventHandler {
-		return append(slice[:s], slice[s+1:]...)
+	// Keep the handlers that are not named. (Don't remove from the slice while ranging over it:
+	// the indexes go stale as soon as an element is removed.)
+	filter := func(slice []*eventHandler) (kept []*eventHandler) {
+		for _, event := range slice {
+			named := false
+			for _, h := range handler {
+				if event.rv.Pointer() == h.Pointer() {
+					named = true
+					break
+				}
+			}
+			if !named {
+				kept = append(kept, event)
+			}
+		}
+		return
 	}
 
 	events, ok := e.events[eventName]
 	if ok {
-		for i, event := range events {
-			for _, h := range handler {
-				ep := event.rv.Pointer()
-				hp := h.Pointer()
-				if ep == hp {
-					events = remove(events, i)
-				}
-			}
-		}
+		events = filter(events)
 		if len(events) == 0 {
 			delete(e.events, eventName)
 		} else {
@@ -440,15 +447,7 @@ func (e *eventHandlerStore) off(eventName string, handler ...reflect.Value) {
 
 	eventsOnce, ok := e.eventsOnce[eventName]
 	if ok {
-		for i, event := range eventsOnce {
-			for _, h := range handler {
-				ep := event.rv.Pointer()
-				hp := h.Pointer()
-				if ep == hp {
-					eventsOnce = remove(eventsOnce, i)
-				}
-			}
-		}
+		eventsOnce = filter(eventsOnce)
 		if len(eventsOnce) == 0 {
 			delete(e.eventsOnce, eventName)
 		} else {
